@@ -331,6 +331,29 @@ func (x *Exec) makeClosure(s *State, in *ssa.MakeClosure) {
 			}
 			x.oblige(s, "captures", fmt.Sprintf("%s#creation-%s", x.p.Names[fn], clauseLabel(cl, i)), t, in.Pos(), cl.Props)
 		}
+		// `ensures[current] result == v` on a closure that is used as an iteratorFunc: what the closure is
+		// proved to return (its own obligation) is what Current() of the iterator made from it reports
+		// (itcur: iterator.Current is assumed deterministic). Only for a captured variable that is not
+		// assigned once closures over it exist.
+		for _, cl := range fc.clauses("ensures") {
+			if cl.Label != "current" {
+				continue
+			}
+			if why := x.p.stableCaptures(fn); why != "" {
+				x.unsupported("ensures[current] of %s: %s", x.p.Names[fn], why)
+				continue
+			}
+			env := x.captureEnv(s, fn, binds)
+			if sig, ok := fn.Type().(*types.Signature); ok && sig.Results().Len() == 1 {
+				env.vars["result"] = sval{v: scalar(mk(SIface, "itcur", r)), typ: sig.Results().At(0).Type()}
+			}
+			t, err := env.evalBool(cl.Expr)
+			if err != nil {
+				x.unsupported("ensures[current] of %s at creation: %v", x.p.Names[fn], err)
+				continue
+			}
+			s.assume(t)
+		}
 	}
 	fr.env[in] = scalar(r)
 }
